@@ -15,6 +15,7 @@ class StreamHandler(BackpressureApi, metaclass=ABCMeta):
         self.stream_id: Optional[int] = None
         self.socket = socket
         self._initial_request_n = MAX_REQUEST_N
+        self._stream_finished = False
 
     @abstractmethod
     def setup(self):
@@ -22,7 +23,7 @@ class StreamHandler(BackpressureApi, metaclass=ABCMeta):
 
     def initial_request_n(self, n: int):
         if n <= 0:
-            self.socket.finish_stream(self.stream_id)
+            self._finish_stream()
             raise RSocketValueError('Initial request N must be > 0')
 
         self._initial_request_n = n
@@ -38,10 +39,17 @@ class StreamHandler(BackpressureApi, metaclass=ABCMeta):
     def send_cancel(self):
         """Convenience method for use by requester subclasses."""
 
+        if self._stream_finished:
+            return  # the interaction is over: nothing may follow on this stream
+
         self.socket.send_frame(to_cancel_frame(self.stream_id))
 
     def send_request_n(self, n: int):
+        if self._stream_finished:
+            return  # the interaction is over: nothing may follow on this stream
+
         self.socket.send_frame(to_request_n_frame(self.stream_id, n))
 
     def _finish_stream(self):
+        self._stream_finished = True
         self.socket.finish_stream(self.stream_id)
